@@ -14,8 +14,8 @@ import (
 
 // Peer is the harness end of a connection to a real server goroutine.
 type Peer struct {
-	End   *xport.End
-	Done  chan error // result of the server handler
+	End    *xport.End
+	Done   chan error // result of the server handler
 	Stderr io.Writer
 }
 
